@@ -206,6 +206,9 @@ def leaf_templates():
     one("hcn:char", "hardcoded", lambda n: field(n, "char", "7"))
     one("hcn:str", "hardcoded", lambda n: field(n, "string", "hi"))
     one("hcn:bool", "hardcoded", lambda n: field(n, "bool", "true"))
+    # literals that need escaping inside a Python string literal: a " b \ c
+    t.append(_T("hc:str-esc", 1, lambda nm: [field(None, "string", 'a"b\\c')], "hardcoded"))
+    one("hcn:str-esc", "hardcoded", lambda n: field(n, "string", 'q"\\', length="3"))
     # optional
     one("opt:char", "optional", lambda n: field(n, "char", optional="true"))
     one("opt:str", "optional", lambda n: field(n, "string", optional="true"))
@@ -244,6 +247,7 @@ def leaf_templates():
     # dummy, framing
     t.append(_T("dummy:char", 1, lambda nm: [dummy("char", "0")], "dummy"))
     t.append(_T("dummy:str", 1, lambda nm: [dummy("string", "N")], "dummy"))
+    t.append(_T("dummy:str-esc", 1, lambda nm: [dummy("string", '\\"')], "dummy"))
     t.append(_T("break", 1, lambda nm: [brk()], "framing"))
     return t
 
